@@ -1316,13 +1316,33 @@ GA_VALUES = [0, 255, 256, 65535, 65536, 2 ** 31 - 1, 2 ** 31, 2 ** 32 - 1, 2 ** 
 TYPE_MAX = {"B": 255, "H": 65535, "i": 2 ** 31 - 1, "I": 2 ** 32 - 1, "q": 2 ** 63 - 1, "Q": 2 ** 64 - 1}
 
 
-def run_garray_case(inittype, allow_longs, vals, use_extend=False):
+def run_garray_case(inittype, allow_longs, vals, use_extend=False, batches=None):
     from whoosh.util.numlists import GrowableArray
     from whoosh.filedb.filestore import RamStorage
     ga = GrowableArray(inittype, allow_longs=allow_longs)
     accepted = []
     retypes = 0
     try:
+        if batches:
+            # the same values handed over in consecutive extend() calls of the
+            # given sizes (values no array type can hold are left to the
+            # single-value cases: what extend() keeps of a refused batch is
+            # not documented)
+            pos = 0
+            for size in batches:
+                batch = vals[pos:pos + size]
+                pos += size
+                before = ga.typecode
+                ga.extend(iter(batch) if size % 2 else list(batch))
+                accepted.extend(batch)
+                if ga.typecode != before:
+                    retypes += 1
+                if list(ga) != accepted or len(ga) != len(accepted):
+                    return ("garray|extend-batch", "after extend(%r) on type %s holding %r (now type %s): %r"
+                            % (batch, before, accepted[:len(accepted) - len(batch)], ga.typecode, list(ga)), retypes)
+                if accepted and max(accepted) > TYPE_MAX.get(ga.typecode, -1):
+                    return "garray|typecode", "typecode %r cannot hold %r" % (ga.typecode, max(accepted)), retypes
+            vals = []
         for v in vals:
             before = ga.typecode
             must_fail = (not allow_longs) and v >= 2 ** 32
@@ -1366,6 +1386,16 @@ def run_garray_case(inittype, allow_longs, vals, use_extend=False):
     return None, None, retypes
 
 
+def _compositions(n):
+    """every way to cut n items into consecutive non-empty batches"""
+    if n == 0:
+        yield ()
+        return
+    for first in range(1, n + 1):
+        for rest in _compositions(n - first):
+            yield (first,) + rest
+
+
 def task_garray(t):
     _, inittype, allow_longs = t
     acc = core.Acc()
@@ -1383,6 +1413,20 @@ def task_garray(t):
                 if kind is not None:
                     acc.violation("enc|" + kind, {"part": "garray", "inittype": inittype, "allow_longs": allow_longs,
                                                    "values": [str(v) for v in vals], "extend": ext}, what)
+            if n >= 2 and (allow_longs or max(vals) < 2 ** 32):
+                for batches in _compositions(n):
+                    if max(batches) < 2:
+                        continue
+                    acc.count("evaluations")
+                    acc.count("garray_cases")
+                    acc.count("garray_batch_extend_cases")
+                    kind, what, retypes = run_garray_case(inittype, allow_longs, list(vals), False, batches)
+                    if retypes:
+                        acc.count("distinct_nontrivial")
+                        acc.count("garray_batch_extend_with_retype")
+                    if kind is not None:
+                        acc.violation("enc|" + kind, {"part": "garray", "inittype": inittype, "allow_longs": allow_longs,
+                                                       "values": [str(v) for v in vals], "batches": list(batches)}, what)
     acc.sample({"part": "garray", "inittype": inittype, "allow_longs": allow_longs, "values": ["255", "256", "65536", "2147483648"]})
     return acc.result()
 
@@ -1668,6 +1712,94 @@ def run_compound_case(case):
         shutil.rmtree(d, ignore_errors=True)
 
 
+def run_compound_writes_case(case):
+    """One member file written through CompoundWriter as the given sequence of
+    write() sizes (a second member is written in between when 'other' is set),
+    for a small buffer size: flushes happen at different fill levels of the
+    sub-stream's re-used buffer.  Both save paths must give back the bytes."""
+    from whoosh.filedb.filestore import RamStorage, FileStorage
+    from whoosh.filedb.compound import CompoundStorage, CompoundWriter
+    sizes = case["sizes"]
+    try:
+        tmp = RamStorage()
+        cw = CompoundWriter(tmp, buffersize=case["buffersize"])
+        f = cw.create_file("m.dat")
+        g = cw.create_file("o.dat") if case["other"] else None
+        want = b""
+        wanto = b""
+        k = 0
+        for sz in sizes:
+            piece = bytes(((k + i) * 13 + 1) & 255 for i in range(sz))
+            k += sz
+            f.write(piece)
+            want += piece
+            if f.tell() != len(want):
+                return "compound|substream-tell", "tell() = %r after %d bytes (writes %r)" % (f.tell(), len(want), sizes)
+            if g is not None:
+                po = bytes([200 + len(wanto) % 50]) * (case["buffersize"] - 1)
+                g.write(po)
+                wanto += po
+        st = RamStorage()
+        if case["how"] == "writer":
+            cw.save_as_compound(st.create_file("x.cmp"))
+            cs = CompoundStorage(st.open_file("x.cmp"), use_mmap=False)
+            got = bytes(cs.open_file("m.dat").read())
+            ln = cs.file_length("m.dat")
+            goto = bytes(cs.open_file("o.dat").read()) if g is not None else b""
+            cs.close()
+        else:
+            cw.save_as_files(st, lambda n: n)
+            got = bytes(st.open_file("m.dat").read())
+            ln = st.file_length("m.dat")
+            goto = bytes(st.open_file("o.dat").read()) if g is not None else b""
+        if ln != len(want):
+            return "compound|writes|length", "member length %d, wrote %d bytes as %r (buffer %d)" % (ln, len(want), sizes, case["buffersize"])
+        if got != want:
+            i = next((i for i, (a, b) in enumerate(zip(got, want)) if a != b), min(len(got), len(want)))
+            return "compound|writes|content", "member differs at byte %d after writes of sizes %r (buffer %d)" % (i, sizes, case["buffersize"])
+        if goto != wanto:
+            return "compound|writes|other-member", "the interleaved second member differs (writes %r, buffer %d)" % (sizes, case["buffersize"])
+        return None
+    except Exception as ex:
+        return "compound|exc:%s@%s" % (type(ex).__name__, where(ex)), "raised %r (%s)" % (ex, {k: v for k, v in case.items() if k != "part"})
+
+
+def compound_write_cases(tier):
+    for bs in (4, 8):
+        alpha = (0, 1, bs - 1, bs, bs + 1, 2 * bs + 1)
+        for n in range(1, 5 if tier == "quick" else 6):
+            for sizes in itertools.product(alpha, repeat=n):
+                for how in ("writer", "files"):
+                    for other in ((False, True) if n <= 3 else (False,)):
+                        yield {"part": "compound_writes", "sizes": list(sizes), "buffersize": bs, "how": how, "other": other}
+
+
+def task_compound_writes(t):
+    _, cases = t
+    acc = core.Acc()
+    for case in cases:
+        acc.count("evaluations")
+        acc.count("compound_write_sequences")
+        bs = case["buffersize"]
+        fill = 0
+        flushes = []
+        for sz in case["sizes"]:
+            if fill + sz >= bs:
+                flushes.append(fill)
+                fill = 0
+            else:
+                fill += sz
+        if len(flushes) >= 2:
+            acc.count("distinct_nontrivial")
+            if any(b < a for a, b in zip(flushes, flushes[1:])):
+                acc.count("compound_write_sequences_flushing_less_than_before")
+        res = run_compound_writes_case(case)
+        if res is not None:
+            acc.violation("enc|" + res[0], case, res[1])
+    acc.sample(cases[len(cases) // 2])
+    return acc.result()
+
+
 def compound_cases():
     names = sorted(MEMBERS)
     arrangements = [[]]
@@ -1743,13 +1875,15 @@ def replay_enc(case):
         back = list(delta_decode(list(delta_encode(l))))
         res = None if back == l else ("delta", "got %r" % back)
     elif p == "garray":
-        r = run_garray_case(case["inittype"], case["allow_longs"], [int(x) for x in case["values"]], case.get("extend", False))
+        r = run_garray_case(case["inittype"], case["allow_longs"], [int(x) for x in case["values"]], case.get("extend", False), case.get("batches"))
         res = None if r[0] is None else r[:2]
     elif p == "struct":
         res = run_struct_case(case["backend"], case["items"])
     elif p == "sort":
         r = run_sort_case(case["seq"], case["maxsize"], case["maxfiles"], case["api"])
         res = None if r[0] is None else r[:2]
+    elif p == "compound_writes":
+        res = run_compound_writes_case(case)
     elif p == "compound":
         res = run_compound_case(case)
     elif p == "base85":
@@ -1803,6 +1937,8 @@ def _task(t):
         return task_sort(t)
     if k == "compound":
         return task_compound(t)
+    if k == "compound_writes":
+        return task_compound_writes(t)
     if k == "base85":
         return task_base85(t)
     raise ValueError(k)
@@ -1877,6 +2013,8 @@ def static_tasks(ctx, colls):
                 tasks.append(("sort", maxsize, maxfiles, api))
     for cs in chunks(list(compound_cases()), 12):
         tasks.append(("compound", cs))
+    for cs in chunks(list(compound_write_cases(ctx.tier)), 600):
+        tasks.append(("compound_writes", cs))
     tasks.append(("base85", seed))
     return tasks
 
@@ -2003,7 +2141,8 @@ def run(ctx):
     c = ctx.counters
     need = {"states": 500, "transitions": 10000, "view_cases": 1000, "hash_files": 1000, "ordered_files": 1000,
             "ordered_index_retyped": 10, "dup_lookups": 100, "garray_cases_with_2plus_retypes": 100,
-            "sort_cases_with_premerge": 10, "compound_cases": 100, "non_increasing_sequences": 100}
+            "sort_cases_with_premerge": 10, "compound_cases": 100, "non_increasing_sequences": 100,
+            "garray_batch_extend_with_retype": 1000, "compound_write_sequences_flushing_less_than_before": 100}
     for k, v in need.items():
         if parts:
             break
